@@ -38,6 +38,7 @@ class ImperialistCompetitiveOptimization(OptimizationAbstract):
         self._config = ImperialistCompetitiveOptimizationConfig(**parameters)
 
     def _init_population(self):
+        self.__empires = []
         # Create countries
         k = self._config.number_of_countries
         countries = []
